@@ -522,38 +522,40 @@ def Doc.addNamespace (d : Doc) (p n : Str) : Except Err (Doc × Str) :=
     | none => .ok (⟨aset d.table q n, rwt⟩, q)
 
 /-- `TurtleSerializer.getQName(uri, gen_prefix)` for a URIRef: `compute_qname`, on any exception the
-    IRI's own prefix if it is a bound namespace; no name if the local part ends with `.`;
-    otherwise the prefix is registered in the document.  `some (d, l)` = the name `d:l` was produced. -/
-def docGetQName (st : Store) (m : Mgr) (d : Doc) (uri : Str) (gen : Bool) :
+    IRI's own prefix if it is a bound namespace; the prefix is registered in the document; no name
+    if the local part ends with `.`.  `some (d, l)` = the name `d:l` was produced.
+    The fallback reads `self.store.store.prefix(uri)`, i.e. the store of the *graph* being written:
+    `fb` = that store is the manager's store (false for a graph that borrows the manager of a graph
+    on another store: its own store holds no bindings). -/
+def docGetQName (st : Store) (m : Mgr) (d : Doc) (uri : Str) (gen fb : Bool) :
     Store × Mgr × Except Err (Doc × Option (Str × Str)) :=
   let r := Mgr.computeQname st m uri gen
   let parts : Option QN :=
     match r.2.2 with
     | .ok q => some q
     | .error _ =>
-      match r.1.prefix uri with
+      match (if fb then r.1.prefix uri else none) with
       | some pfx => some (pfx, uri, [])
       | none => none
   match parts with
   | none => (r.1, r.2.1, .ok (d, none))
   | some (p, n, l) =>
-    if l.getLast? == some 46 then (r.1, r.2.1, .ok (d, none))
-    else
-      match d.addNamespace p n with
-      | .ok (d', q) => (r.1, r.2.1, .ok (d', some (q, l)))
-      | .error e => (r.1, r.2.1, .error e)
+    -- the prefix is declared even if this name cannot use it (`local.endswith(".")`)
+    match d.addNamespace p n with
+    | .ok (d', q) => (r.1, r.2.1, .ok (d', if l.getLast? == some 46 then none else some (q, l)))
+    | .error e => (r.1, r.2.1, .error e)
 
 /-- `preprocess()` of a document: `getQName` for every IRI node in the order the triples are met
     (`generate` only for predicates).  Returns the names produced: (IRI, document prefix, local). -/
-def serDoc : List (Str × Bool) → Store → Mgr → Doc → List (Str × Str × Str) →
+def serDoc (fb : Bool) : List (Str × Bool) → Store → Mgr → Doc → List (Str × Str × Str) →
     Store × Mgr × Except Err (Doc × List (Str × Str × Str))
   | [], st, m, d, acc => (st, m, .ok (d, acc))
   | (u, g) :: r, st, m, d, acc =>
-    let q := docGetQName st m d u g
+    let q := docGetQName st m d u g fb
     match q.2.2 with
     | .error e => (q.1, q.2.1, .error e)
-    | .ok (d', none) => serDoc r q.1 q.2.1 d' acc
-    | .ok (d', some (dp, l)) => serDoc r q.1 q.2.1 d' (acc ++ [(u, dp, l)])
+    | .ok (d', none) => serDoc fb r q.1 q.2.1 d' acc
+    | .ok (d', some (dp, l)) => serDoc fb r q.1 q.2.1 d' (acc ++ [(u, dp, l)])
 
 /-! ### histories -/
 
@@ -572,7 +574,7 @@ inductive Op
   | parse (m : Bool) (d : List (Str × Str))
   | parsexml (m : Bool) (d : List (Option Str × Str))
   | ser (m : Bool) (s p o : Str)
-  | serdoc (m : Bool) (qs : List (Str × Bool))
+  | serdoc (m : Bool) (fb : Bool) (qs : List (Str × Bool))
   deriving Repr
 
 structure St where
@@ -611,9 +613,9 @@ def St.step (s : St) : Op → St × Out
   | .parse i d => let r := parseTurtle s.store (s.mgr i) d; (s.put i (r.1, r.2.1), r.2.2)
   | .parsexml i d => let r := parseXml s.store (s.mgr i) d; (s.put i (r.1, r.2.1), r.2.2)
   | .ser i a b c => (s.put i (serializeTriple s.store (s.mgr i) a b c), .unit)
-  | .serdoc i qs =>
+  | .serdoc i fb qs =>
     -- the harness calls `reset()` right after the serialisation (see harness/c17.py)
-    let r := serDoc qs s.store (s.mgr i) Doc.empty []
+    let r := serDoc fb qs s.store (s.mgr i) Doc.empty []
     (s.put i (r.1, Mgr.reset r.1 r.2.1),
       match r.2.2 with
       | .ok (d, _) => .doc d.table
